@@ -138,7 +138,7 @@ def run(ctx):
 
 MANIFEST = {
     "category": "other",
-    "technique": "decision table of the per-member merge step (forking abstract interpretation, loop-carried variables as symbols) + exhaustive enumeration of the CRDT laws over the finite abstract domain",
+    "technique": "decision table of the per-member merge step (forking abstract interpretation, loop-carried variables as symbols) + exhaustive enumeration of the CRDT laws over the finite abstract domain; must-pass-through and provenance rules on the frame of merge (loop reached on every return, accumulator seeded from state_2 and returned)",
     "text": "Proof of the table clause: the merge step only compares counters and access values, so commutativity, idempotence and associativity are decided by enumerating every ordering scenario; whole-state laws follow pointwise. Claimed as level other: the enumeration is exhaustive, but the laws do NOT hold for accesses with ordered conditions (open known findings C32.2), so not every obligation is discharged.",
     "note": "Trusted: rustc MIR, driver, abstract interpreter; HashMap get_mut/insert semantics.",
 }
